@@ -25,9 +25,9 @@ ALL_KINDS = ["io", "timer", "tcp", "udp", "lst", "acc", "pkt", "peer", "file", "
 # what the code at the pinned commit does (TRUE = defect present); flipped to
 # FALSE as the repository gets repaired
 BUGS = dict(
-    BUG_ConnectLeak="TRUE", BUG_PacketBindLeak="TRUE", BUG_PeerLeak="TRUE", BUG_WsLeak="TRUE",
-    BUG_ListenerNoGuard="TRUE", BUG_PacketNoGuard="TRUE", BUG_TimerRevive="TRUE",
-    BUG_AdapterRawClose="TRUE", BUG_EarlyDeregister="TRUE",
+    BUG_ConnectLeak="FALSE", BUG_PacketBindLeak="FALSE", BUG_PeerLeak="FALSE", BUG_WsLeak="FALSE",
+    BUG_ListenerNoGuard="FALSE", BUG_PacketNoGuard="FALSE", BUG_TimerRevive="FALSE",
+    BUG_AdapterRawClose="FALSE", BUG_EarlyDeregister="FALSE",
     BUG_SocketNonblockLeak="TRUE", BUG_AcceptLeak="TRUE")
 
 BEFORE_REPAIR = {k: "TRUE" for k in BUGS}
